@@ -317,9 +317,63 @@ func corrJoins(fn *ssa.Function) map[*ssa.BasicBlock][]int {
 			out[b] = dec
 		}
 	}
+	// a nil test of a value whose nil-ness is already decided at that block (an earlier test of the same value dominates it)
+	dec := map[*ssa.BasicBlock]int{}
+	for _, b := range fn.Blocks {
+		if len(b.Instrs) == 0 || len(b.Succs) != 2 || b.Succs[0] == b.Succs[1] {
+			continue
+		}
+		ifi, ok := b.Instrs[len(b.Instrs)-1].(*ssa.If)
+		if !ok {
+			continue
+		}
+		bo, ok := ifi.Cond.(*ssa.BinOp)
+		if !ok || (bo.Op != token.EQL && bo.Op != token.NEQ) {
+			continue
+		}
+		var v ssa.Value
+		if IsNilConst(bo.Y) {
+			v = bo.X
+		} else if IsNilConst(bo.X) {
+			v = bo.Y
+		}
+		if v == nil || IsNilConst(v) {
+			continue
+		}
+		t := tests[v]
+		if t == nil {
+			continue
+		}
+		k := -1
+		for _, s := range t.nonNil {
+			if s != b.Succs[0] && s != b.Succs[1] && (s == b || s.Dominates(b)) {
+				k = 1
+			}
+		}
+		for _, s := range t.isNil {
+			if s != b.Succs[0] && s != b.Succs[1] && (s == b || s.Dominates(b)) {
+				k = 0
+			}
+		}
+		if k < 0 {
+			continue
+		}
+		nonNilEdge := 0
+		if bo.Op == token.EQL {
+			nonNilEdge = 1
+		}
+		if k == 1 {
+			dec[b] = nonNilEdge
+		} else {
+			dec[b] = 1 - nonNilEdge
+		}
+	}
+	decidedCache.Store(fn, dec)
 	corrCache.Store(fn, out)
 	return out
 }
+
+var decidedCache sync.Map // *ssa.Function -> map[*ssa.BasicBlock]int: nil tests decided by a dominating test of the same value
 
 // reach computes the blocks reachable from the start blocks, never entering a block in `avoid` and never following a cut edge. A block
 // with a correlated nil test (corrJoins) is left only through the successor that is feasible for the edge it was entered by.
@@ -340,7 +394,11 @@ func reach(starts []*ssa.BasicBlock, avoid map[*ssa.BasicBlock]bool, cut map[[2]
 	for len(stack) > 0 {
 		b := stack[len(stack)-1]
 		stack = stack[:len(stack)-1]
-		for _, s := range b.Succs {
+		only := constBranch(b)
+		for si, s := range b.Succs {
+			if only >= 0 && si != only {
+				continue // `if nil != nil` and the like: the other successor is dead code
+			}
 			if cut[[2]*ssa.BasicBlock{b, s}] || avoid[s] {
 				continue
 			}
@@ -392,6 +450,67 @@ func reach(starts []*ssa.BasicBlock, avoid map[*ssa.BasicBlock]bool, cut map[[2]
 	return seen
 }
 
+var liveCache sync.Map // *ssa.Function -> map[*ssa.BasicBlock]bool (nil when every block is live)
+
+// liveBlocks: the blocks reachable from the entry once constant branches are resolved; nil when the function has no constant branch.
+func liveBlocks(fn *ssa.Function) map[*ssa.BasicBlock]bool {
+	if v, ok := liveCache.Load(fn); ok {
+		m, _ := v.(map[*ssa.BasicBlock]bool)
+		return m
+	}
+	var out map[*ssa.BasicBlock]bool
+	has := false
+	for _, b := range fn.Blocks {
+		if constBranch(b) >= 0 {
+			has = true
+		}
+	}
+	if has && len(fn.Blocks) > 0 {
+		out = reach([]*ssa.BasicBlock{fn.Blocks[0]}, nil, nil)
+	}
+	liveCache.Store(fn, out)
+	return out
+}
+
+// constBranch: b ends in an If whose condition is a constant (a boolean constant, or a comparison of two nil constants — what is left of
+// `if err != nil` once err is known to be the nil literal); returns the index of the successor taken, -1 otherwise.
+func constBranch(b *ssa.BasicBlock) int {
+	if len(b.Instrs) == 0 || len(b.Succs) != 2 {
+		return -1
+	}
+	if fn := b.Parent(); fn != nil {
+		if _, ok := decidedCache.Load(fn); !ok {
+			corrJoins(fn)
+		}
+		if v, ok := decidedCache.Load(fn); ok {
+			if k, has := v.(map[*ssa.BasicBlock]int)[b]; has {
+				return k
+			}
+		}
+	}
+	ifi, ok := b.Instrs[len(b.Instrs)-1].(*ssa.If)
+	if !ok {
+		return -1
+	}
+	switch c := ifi.Cond.(type) {
+	case *ssa.Const:
+		if bv, ok := BoolConst(c); ok {
+			if bv {
+				return 0
+			}
+			return 1
+		}
+	case *ssa.BinOp:
+		if (c.Op == token.EQL || c.Op == token.NEQ) && IsNilConst(c.X) && IsNilConst(c.Y) {
+			if c.Op == token.EQL {
+				return 0
+			}
+			return 1
+		}
+	}
+	return -1
+}
+
 // expanded: every successor of b has been seen (so pushing b again adds nothing).
 func expanded(b *ssa.BasicBlock, seen map[*ssa.BasicBlock]bool) bool {
 	for _, s := range b.Succs {
@@ -426,9 +545,13 @@ func ReachableAfter(a, b ssa.Instruction) bool {
 // Returns lists the Return instructions of fn.
 func Returns(fn *ssa.Function) []*ssa.Return {
 	var out []*ssa.Return
+	live := liveBlocks(fn)
 	for _, b := range fn.Blocks {
 		if len(b.Instrs) == 0 {
 			continue
+		}
+		if live != nil && !live[b] && b != fn.Recover {
+			continue // dead code behind a constant branch
 		}
 		if r, ok := b.Instrs[len(b.Instrs)-1].(*ssa.Return); ok {
 			out = append(out, r)
